@@ -59,6 +59,7 @@ package messageview
 //@   modifies mvNop, mvNopSrc
 //@   ensures result != nil && mvNop == result && mvNopSrc == r
 
+//@ ghost var mvDidRead bool
 //@ func (*MessageView).matchContentType
 //@   trusted
 //@   modifies nothing
@@ -75,7 +76,14 @@ package messageview
 //@   ensures[chunked-recorded-from-the-last-transfer-coding; C15 C16] (len(req.TransferEncoding) > 0 ==> mv.chunked == (req.TransferEncoding[len(req.TransferEncoding) - 1] == "chunked")) &&
 //@        (len(req.TransferEncoding) == 0 ==> mv.chunked == old(mv.chunked))
 //@   ensures[replaced-body-reads-the-bytes-of-the-old-one] req.Body != old(req.Body) ==> req.Body == mvNop && mvNopSrc == iface(mvReader) && mvReaderData == mvReadData && mvReadSrc == old(req.Body)
-//@   at call 1 of Bytes before assert[chunked-message-ends-with-the-blank-line] mv.chunked ==> buf.mvEndsBlank
+// mvDidRead: this call consumed the body of the message (ReadAll). A consumed body is always replaced by its in-memory
+// copy, and the snapshot of a chunked message whose body was read is complete (last chunk and final blank line).
+//@   modifies mvDidRead
+//@   at entry 0 before set mvDidRead = false
+//@   at call 0 of ReadAll after set mvDidRead = (result1 == nil)
+//@   ensures[a-consumed-body-is-replaced-by-its-in-memory-copy] result == nil && mvDidRead ==> req.Body == mvNop && mvNopSrc == iface(mvReader) && mvReaderData == mvReadData
+//@   at call all of Bytes before assert[chunked-message-without-trailers-ends-with-the-blank-line] mv.chunked && mvDidRead && req.Trailer == nil ==> buf.mvEndsBlank
+//@   at call all of Bytes before assert[chunked-message-ends-with-the-blank-line] mv.chunked && mvDidRead && req.Trailer != nil ==> buf.mvEndsBlank
 
 //@ func (*MessageView).SnapshotResponse
 //@   serves C15
@@ -87,7 +95,14 @@ package messageview
 //@   ensures[no-decoding-of-bodiless-or-partial-content; C15 C16] result == nil && (res.StatusCode == 204 || res.StatusCode == 206) ==> mv.compress == ""
 //@   ensures[offsets-ordered] result == nil ==> 0 <= mv.bodyoffset && mv.bodyoffset <= mv.traileroffset && mv.traileroffset <= len(mv.message)
 //@   ensures[replaced-body-reads-the-bytes-of-the-old-one] res.Body != old(res.Body) ==> res.Body == mvNop && mvNopSrc == iface(mvReader) && mvReaderData == mvReadData && mvReadSrc == old(res.Body)
-//@   at call 1 of Bytes before assert[chunked-message-ends-with-the-blank-line] mv.chunked ==> buf.mvEndsBlank
+// mvDidRead: this call consumed the body of the message (ReadAll). A consumed body is always replaced by its in-memory
+// copy, and the snapshot of a chunked message whose body was read is complete (last chunk and final blank line).
+//@   modifies mvDidRead
+//@   at entry 0 before set mvDidRead = false
+//@   at call 0 of ReadAll after set mvDidRead = (result1 == nil)
+//@   ensures[a-consumed-body-is-replaced-by-its-in-memory-copy] result == nil && mvDidRead ==> res.Body == mvNop && mvNopSrc == iface(mvReader) && mvReaderData == mvReadData
+//@   at call all of Bytes before assert[chunked-message-without-trailers-ends-with-the-blank-line] mv.chunked && mvDidRead && res.Trailer == nil ==> buf.mvEndsBlank
+//@   at call all of Bytes before assert[chunked-message-ends-with-the-blank-line] mv.chunked && mvDidRead && res.Trailer != nil ==> buf.mvEndsBlank
 
 //@ func New
 //@   serves C15
@@ -112,8 +127,41 @@ package messageview
 // was given.
 //@ ghost var bodyFramed bool
 //@ ghost var bodyDecoded bool
+// BodyReader is verified (not trusted). Options are opaque function values; the package exports exactly one
+// constructor for them, Decode(), so every option passed is assumed to switch decoding on (anchored assumption).
+// brUnchunk / brGzip / brFlate count the decoding layers put on top of the stored bytes by this call: with the option
+// the chunk framing and the content coding are removed INDEPENDENTLY of each other, without it nothing is removed.
+//@ ghost var brUnchunk int
+//@ ghost var brGzip int
+//@ ghost var brFlate int
+//@ extern func httputil.NewChunkedReader
+//@   modifies brUnchunk
+//@   ensures brUnchunk == old(brUnchunk) + 1 && result != nil
+//@ extern func gzip.NewReader
+//@   modifies brGzip
+//@   ensures brGzip == old(brGzip) + 1 && (result1 == nil) == (result0 != nil)
+//@ extern func flate.NewReader
+//@   modifies brFlate
+//@   ensures brFlate == old(brFlate) + 1 && result != nil
+//@ extern func io.NewSectionReader
+//@   ensures result != nil
 //@ func (*MessageView).BodyReader
-//@   trusted
-//@   modifies bodyFramed, bodyDecoded
+//@   serves C15 C16
+//@   requires mv != nil
+//@   dyncalls-opaque
+//@   noframe
+//@   modifies bodyFramed, bodyDecoded, brUnchunk, brGzip, brFlate
+//@   at entry 0 before set brUnchunk = 0
+//@   at entry 0 before set brGzip = 0
+//@   at entry 0 before set brFlate = 0
+//@   at entry 0 before set bodyFramed = mv.chunked
+//@   at entry 0 before set bodyDecoded = false
+//@   at call 0 of dynamic after havoc conf.decode
+//@   at call 0 of dynamic after assume conf.decode
+//@   at call 0 of dynamic after set bodyDecoded = true
+//@   at call 0 of NewChunkedReader after set bodyFramed = false
+//@   loop 0 invariant -1 <= rangeindex && rangeindex < len(opts) && conf != nil && brUnchunk == 0 && brGzip == 0 && brFlate == 0 && bodyFramed == mv.chunked && conf.decode == (rangeindex >= 0) && bodyDecoded == conf.decode
+//@   at return all before assert[decode-option-removes-chunk-framing-and-content-coding-independently] (conf.decode && mv.chunked ==> brUnchunk == 1) && (conf.decode && mv.compress == "gzip" ==> brGzip == 1) && (conf.decode && mv.compress == "deflate" ==> brFlate == 1)
+//@   at return all before assert[without-the-option-the-stored-bytes-are-handed-out-as-they-are] !conf.decode ==> brUnchunk == 0 && brGzip == 0 && brFlate == 0
 //@   ensures (result1 == nil) == (result0 != nil)
 //@   ensures bodyFramed == (mv.chunked && len(opts) == 0) && bodyDecoded == (len(opts) > 0)
